@@ -47,6 +47,7 @@ pub fn dispatch(op: &[Value]) -> Result<Value, String> {
         "v_tts_tag" => Ok(Value::String(libmathcat::verif::tts::tag(&s(op, 1), &s(op, 2), &s(op, 3), &s(op, 4), b(op, 5)))),
         "v_tts_merge_pauses" => Ok(Value::String(libmathcat::verif::tts::merge_pauses(&s(op, 1), &s(op, 2)))),
         "v_tts_auto_pause" => Ok(Value::String(libmathcat::verif::tts::auto_pause(&s(op, 1), &s(op, 2), &s(op, 3)))),
+        "v_prefs_dump" => Ok(json!(libmathcat::verif::prefs::dump().into_iter().map(|(a, b, c, d)| json!([a, b, c, d])).collect::<Vec<_>>())),
         _ => Err(format!("HARNESS: unknown op '{}'", name)),
     }
 }
